@@ -34,7 +34,7 @@ ASSUMPTIONS = [
 ]
 EXPLANATION = 'bounded exhaustive enumeration of format grammars through the real readers, lazy and eager'
 MANIFEST_TEXT = ('Exhaustive enumeration of per-format grammars (BED3/6/12, bedGraph, wig with interior comments, narrowPeak, '
-                 'chrom.sizes, VCF +/- header, typed INFO and genotype matrices through 5 VCF buffer types, SAM +/- tags, '
+                 'chrom.sizes, VCF +/- header, typed INFO and genotype matrices (GT alone, with the same sub-fields on every sample, and one annotated next to one bare sample) through 5 VCF buffer types, SAM +/- tags, '
                  'GTF, GFF3 with comments, GFA, pairs, FASTA wrapped at every width 1..4/8, FASTQ): files of 1..3 (quick) / '
                  '1..4 (thorough) records where each column in turn takes every tuple of its domain (signed ints, leading '
                  'zeros, "." placeholders, list columns with/without trailing comma, scientific floats, very unequal widths) '
